@@ -311,6 +311,10 @@ def t_expand(spec: GraphSpec):
         for iname, s in n.inputs.items():
             consumers.setdefault(objs0.index(s.parent), []).append((objs0.index(n), iname, s.name))
     targets = [i for i in range(len(objs0)) if i in consumers]
+    # terminal nodes that declare outputs (every fluent graph ends in such nodes): nothing consumes them, so after the
+    # expansion the selected leaves must be sinks of the result
+    terminal = [i for i in range(len(objs0)) if i not in consumers and objs0[i].outputs and objs0[i].inputs]
+    targets = targets + terminal
     shapes = subgraphs()
     for ti in targets:
         for shape_name, mk in shapes.items():
@@ -371,7 +375,7 @@ def t_expand(spec: GraphSpec):
                     memo: dict = {}
                     expect_out = {o: ref_sub_term(sub_by_name, sub_by_name[l], mapped, memo) for o, l in eff_out.items()}
                     # expected denotation of every consumer input that pointed at the target
-                    want = {(ci, iname): expect_out[oname] for (ci, iname, oname) in consumers[ti]}
+                    want = {(ci, iname): expect_out[oname] for (ci, iname, oname) in consumers.get(ti, [])}
                     names_of = {id(n): i for i, n in enumerate(objs)}
 
                     def expander(n, target=target, sub=sub, input_map=input_map, output_map=output_map):
@@ -395,6 +399,12 @@ def t_expand(spec: GraphSpec):
                                     elif got != want[(idx, iname)]:
                                         out.append(V("expand_wiring", "consumer wired to a node that denotes something else than the selected leaf", tag))
                                     want.pop((idx, iname))
+                        if ti in terminal:
+                            sink_terms = [it2.sink_terms(sk) for sk in r.sinks]
+                            for o, t_ in expect_out.items():
+                                if (t_,) not in sink_terms:
+                                    out.append(V("expand_drops_terminal", "the expansion of a terminal node is not among the sinks of the result", f"{tag}: output {o!r}; sinks {[sk.name for sk in r.sinks]}"))
+                                    break
                         if want and all(names_of.get(id(n)) is not None or True for n in r.nodes()):
                             # consumers that vanished from the result graph
                             reachable = {names_of.get(id(n)) for n in r.nodes()}
